@@ -31,6 +31,10 @@
 #include <utility>
 #include <vector>
 
+#include <csignal>
+#include <sys/time.h>
+#include <unistd.h>
+
 #include "common.hpp"
 
 #define private public
@@ -362,11 +366,28 @@ static ICont* configure(const std::vector<std::string>& t) {
     return nullptr;
 }
 
+// an operation that no longer terminates (e.g. a sift loop that stops making progress) must not hang
+// the check: 1 s of CPU time per protocol line, then the run ends with a verdict
+static void on_vtalarm(int) {
+    static const char m[] = "#VIOL hang: an operation used more than 1 s of CPU time\n";
+    ssize_t r = write(1, m, sizeof(m) - 1);
+    (void)r;
+    _exit(3);
+}
+static void arm_watchdog(long sec) {
+    struct itimerval tv;
+    tv.it_interval.tv_sec = 0; tv.it_interval.tv_usec = 0;
+    tv.it_value.tv_sec = sec; tv.it_value.tv_usec = 0;
+    setitimer(ITIMER_VIRTUAL, &tv, nullptr);
+}
+
 int main() {
     std::string line;
     std::unique_ptr<ICont> cur;
     auto close = [&]() { if (cur) { cur->finish(); cur.reset(); } };
+    std::signal(SIGVTALRM, on_vtalarm);
     while (std::getline(std::cin, line)) {
+        arm_watchdog(1);
         auto t = vh::tokens(line);
         if (t.empty()) { vh::answer(""); continue; }
         if (t[0][0] == '#') { vh::answer(line); continue; }
